@@ -116,6 +116,7 @@ func (fc *FnCtx) typeFacts(v Val, t types.Type) string {
 
 func sliceWF(s string) string {
 	return and(sx("<=", "0", sx("s-off", s)), sx("<=", "0", sx("s-len", s)), sx("<=", sx("s-len", s), sx("s-cap", s)),
+		sx("<=", sx("+", sx("s-off", s), sx("s-cap", s)), "9223372036854775807"),
 		implies(eq(sx("s-obj", s), "0"), and(eq(sx("s-len", s), "0"), eq(sx("s-cap", s), "0"), eq(sx("s-off", s), "0"))))
 }
 
